@@ -373,6 +373,31 @@ pub fn check_views(ctx: &mut Ctx, doc: &[u8]) {
         let lv = unsafe { sonic_rs::to_array_iter_unchecked(&arr[..]) }.next().ok_or("no item")?.map_err(|e| e.to_string())?;
         check_lazy(&lv, &an, &arr, 2)
     });
+    for unchecked in [false, true] {
+        run(ctx, if unchecked { "LazyValue via get_many_unchecked" } else { "LazyValue via get_many" }, &mut || {
+            let mut tree = sonic_rs::PointerTree::new();
+            tree.add_path(&["v"]);
+            tree.add_path(&["v"]);
+            let r = if unchecked { unsafe { sonic_rs::get_many_unchecked(&wrapped[..], &tree) } } else { sonic_rs::get_many(&wrapped[..], &tree) };
+            let slots = r.map_err(|e| e.to_string())?;
+            for lv in slots.iter() {
+                let lv = lv.as_ref().ok_or("empty slot for a resolvable path")?;
+                check_lazy(lv, &vn, &wrapped, 2)?;
+            }
+            Ok(())
+        });
+        run(ctx, if unchecked { "LazyValue via get_unchecked(child)" } else { "LazyValue via get_from_slice(array element)" }, &mut || {
+            let lv = if unchecked {
+                unsafe { sonic_rs::get_unchecked(&wrapped[..], &["v"]) }.map_err(|e| e.to_string())?
+            } else {
+                return {
+                    let lv = sonic_rs::get_from_slice(&arr[..], &[0]).map_err(|e| e.to_string())?;
+                    check_lazy(&lv, &an, &arr, 2)
+                };
+            };
+            check_lazy(&lv, &vn, &wrapped, 2)
+        });
+    }
     // OwnedLazyValue sources
     run(ctx, "OwnedLazyValue via from_slice", &mut || {
         let o: OwnedLazyValue = sonic_rs::from_slice(doc).map_err(|e| e.to_string())?;
